@@ -465,7 +465,8 @@ class Fn:
                 ty = self.fresh()
                 body, tb, xb = rng.choice([("[%s]" % y, sl(ty), ["slice", [V(y)]]), ("(%s, 1)" % y, tup(ty, INT), ["tuple", [V(y), LIT["int"]]]),
                                            (y, ty, V(y)), ("(%s, %s)" % (y, y), tup(ty, ty), ["tuple", [V(y), V(y)]])])
-                lines.append("let %s = fun %s -> %s" % (g, y, body))
+                # (written as a lambda or as an inner function: fc infers an inner function on its own when it meets it)
+                lines.append(("let %s = fun %s -> %s" if rng.random() < 0.5 else "let %s %s = %s") % (g, y, body))
                 self.stmts.append(["let", g, ["lam", y, xb]])
                 self.funlocals.append((g, fn([ty], tb), V(g)))
             elif r < 0.4:
